@@ -261,7 +261,7 @@ def run_task(task):
             except DriverFailure as e:
                 k = e.nresp
                 st['inconclusive'].append('driver failure in %s mode on cfg %s: %s; last request answered: #%d; next request: %r'
-                                          % (mode, cfg.name, e, k, lines[k - 1] if 0 < k <= len(lines) else (lines[0] if lines else None)))
+                                          % (mode, cfg.name, e, k, lines[k] if 0 <= k < len(lines) else None))
                 continue
             if len(resp) != len(lines):
                 st['inconclusive'].append('driver answered %d of %d requests (%s, %s)' % (len(resp), len(lines), cfg.name, mode))
